@@ -112,7 +112,7 @@ def mutate(s):
     if r < 0.62: return s[:i] + rnd.choice(INSERT) + s[i:]
     if r < 0.8: return s[:i] + rnd.choice(INSERT) + s[i + 1:]
     # token-level edits
-    t = rnd.choice(['leadzero', 'negzero', 'bigint', 'dropparen', 'opswap', 'fnname', 'dropquote', 'lonesurr', 'ctl', 'illtyped', 'illtyped', 'illtyped', 'cmpnonsing', 'cmpnonsing', 'trailing', 'leading'])
+    t = rnd.choice(['leadzero', 'negzero', 'bigint', 'dropparen', 'opswap', 'fnname', 'dropquote', 'lonesurr', 'ctl', 'illtyped', 'illtyped', 'illtyped', 'embedded', 'embedded', 'embedded', 'cmpnonsing', 'cmpnonsing', 'trailing', 'leading'])
     if t == 'leadzero': return s.replace('[1', '[01', 1).replace(':1', ':01', 1) if ('[1' in s or ':1' in s) else s + '[01]'
     if t == 'negzero': return s + '[-0]'
     if t == 'bigint': return s + rnd.choice(['[%d]' % (M + 1), '[%d]' % (-M - 1), '[:%d]' % (M + 1), '[?@[%d]==1]' % (M + 1), '[18446744073709551616]'])
@@ -134,6 +134,14 @@ def mutate(s):
                  '[?%s]' % valuef, '[?!%s]' % valuef, '[?@.a && %s]' % valuef, '[?(%s)]' % valuef,
                  '[?length(@,@)==1]', '[?count()==1]', '[?search(@)]', "[?match(@,'a','b')]", '[?value()==1]', '[?length()==1]', '[?length(@.a,)==1]', '[?in(@)]'.replace('in', 'length')]
         return s + rnd.choice(forms)
+    if t == 'embedded':
+        # an atom that only the AST builder rejects, next to atoms that could tempt a builder into not looking at it (constant-true / constant-false / plain operands)
+        bad = rnd.choice(['length(@.*)==1', 'count(1)==1', 'count(@.a)', '!length(@)', "match(@,'a')==true", '@. a', '@.. a', 'length (@)==1', '@[%d]==1' % (M + 1), '@[01]==1', '@[-0]==1',
+                          '@.a==@.*', '$..a==1', 'value(@..a)', "search(@)", 'length(@,@)==1', '@.a in @.b', '1', "'a'", 'true'])
+        good = rnd.choice(['1==1', "'a'=='a'", 'null==null', 'true==true', '2.5==2.5', '1==2', "'a'=='b'", '1!=1', '1<=1', '@.a', '!@.a', '@.a==1', "match(@.a,'x')", '(1==1)', '1==1.0'])
+        op = rnd.choice(['||', '&&', ' || ', ' && '])
+        form = rnd.choice(['[?%s%s%s]' % (good, op, bad), '[?%s%s%s]' % (bad, op, good), '[?%s%s(%s)]' % (good, op, bad), '[?!(%s)%s%s]' % (good, op, bad), '[?%s%s%s%s%s]' % (good, op, good, op, bad)])
+        return s + form
     if t == 'cmpnonsing': return s + rnd.choice(['[?@.*==1]', '[?@..a==1]', '[?@[0,1]==1]', '[?@[0:1]==1]', '[?@[?@.a]==1]', '[?1==$..a]', '[?(@.a)==1]', '[?@.a==(1)]', '[?!@.a==1]', '[?1]', "[?'a']", '[?true]', '[?null==null]'])
     if t == 'trailing': return s + rnd.choice([' ', BS + 'T', BS + 'N', '.', '..', '[', ',', ' '])
     return rnd.choice([' ', BS + 'N', ' ', '$']) + s
